@@ -1,3 +1,41 @@
-From Verif Require Import Base Link.
-Theorem placeholder : True. Proof. exact I. Qed.
-Print Assumptions placeholder.
+(* C05 — no timing of completion, cancel, late responses or shutdown crashes or deadlocks panrpc.
+   The crash causes the models know: send on a closed channel / close of a closed channel
+   (Bcast.v, the only place where panrpc closes or sends on shared channels), a panic outside a
+   recovered path, a result-arity mismatch of a stub (Link.v: the recover path always yields the
+   declared number of results — [CReturned] carries a value and an error for both arities). *)
+From Verif Require Import Base Bcast BcastProofs Link LinkProofs LinkInv16.
+
+(* The pending-call table (Broadcaster) never crashes, for all client programs and schedules —
+   in particular for the registry's use of it: waiter Receive/receive/Free, publisher Publish,
+   setErr Close, per-call and link cancellation. *)
+Theorem table_no_crash :
+  forall progs s, Bcast.reachable fixed progs s -> Bcast.crashed s = false.
+Proof. exact bc_no_crash_lemma. Qed.
+Print Assumptions table_no_crash.
+
+(* No schedule, fault sequence, cancellation or peer input drives the endpoint model into its
+   crash state, in either variant of the endpoint (the endpoint's own steps contain no crash
+   transition: every panic of application code is recovered — next theorem). *)
+Theorem endpoint_no_crash :
+  forall v calls s, lreachable v calls s -> Link.crashed s = false.
+Proof. exact lno_crash_lemma. Qed.
+Print Assumptions endpoint_no_crash.
+
+(* A panicking handler is contained: its step is defined and yields the first half of setErr
+   (the link ends with the panic as its error), not a crash. *)
+Theorem handler_panic_contained :
+  forall calls s n arg,
+    Link.crashed s = false -> tget (threads s) (THandler n) = Some (HStart FPanic arg) ->
+    lstep fixed calls s (Run (THandler n)) 0 =
+    Some (begin_seterr calls (with_ev s (EvInvoked n FPanic arg)) (THandler n) EPanic KDone).
+Proof. intros calls s n arg Hc Ht. unfold lstep. rewrite Hc, Ht. reflexivity. Qed.
+Print Assumptions handler_panic_contained.
+
+(* The tree as found crashes (D1): see Props/C19.v D1_refuted, restated here. *)
+Theorem D1_refuted_C05 :
+  exists progs cs s, Bcast.run legacy (Bcast.init progs) cs = Some s /\ Bcast.crashed s = true.
+Proof.
+  exists [[Receive 1%N 1%N]; [Publish 1%N 7%N]; [Free 1%N]], [(0, 0); (1, 0); (2, 0); (1, 1)].
+  eexists. split; [vm_compute; reflexivity|reflexivity].
+Qed.
+Print Assumptions D1_refuted_C05.
